@@ -274,6 +274,48 @@ theorem sub_eq_add_neg (a b : Dec) : Dec.sub a b = Dec.add a (neg' b) := by
 theorem neg_neg (a : Dec) : neg' (neg' a) = a := by
   cases a with | mk n m s => simp [neg']
 
+/-- The order is transitive (what `min`/`max` over any number of arguments rely on). -/
+theorem lt_trans (a b c : Dec) (h1 : Dec.lt a b = true) (h2 : Dec.lt b c = true) : Dec.lt a c = true := by
+  rw [lt_by_value] at h1 h2 ⊢
+  have pa := pow10_pos a.scale
+  have pb := pow10_pos b.scale
+  have pc := pow10_pos c.scale
+  have e1 : a.num * 10 ^ b.scale * 10 ^ c.scale < b.num * 10 ^ a.scale * 10 ^ c.scale :=
+    Int.mul_lt_mul_of_pos_right h1 pc
+  have e2 : b.num * 10 ^ c.scale * 10 ^ a.scale < c.num * 10 ^ b.scale * 10 ^ a.scale :=
+    Int.mul_lt_mul_of_pos_right h2 pa
+  have e3 : a.num * 10 ^ c.scale * 10 ^ b.scale < c.num * 10 ^ a.scale * 10 ^ b.scale := by
+    have r1 : a.num * 10 ^ c.scale * 10 ^ b.scale = a.num * 10 ^ b.scale * 10 ^ c.scale := by
+      rw [Int.mul_assoc, Int.mul_assoc, Int.mul_comm (10 ^ c.scale)]
+    have r2 : b.num * 10 ^ a.scale * 10 ^ c.scale = b.num * 10 ^ c.scale * 10 ^ a.scale := by
+      rw [Int.mul_assoc, Int.mul_assoc, Int.mul_comm (10 ^ c.scale)]
+    have r3 : c.num * 10 ^ b.scale * 10 ^ a.scale = c.num * 10 ^ a.scale * 10 ^ b.scale := by
+      rw [Int.mul_assoc, Int.mul_assoc, Int.mul_comm (10 ^ b.scale)]
+    rw [r1, ← r3]; rw [r2] at e1; exact Int.lt_trans e1 e2
+  exact Int.lt_of_mul_lt_mul_right e3 (Int.le_of_lt pb)
+
+theorem cross_le (x y z pa pb pc : Int) (hpa : 0 < pa) (hpb : 0 < pb) (hpc : 0 < pc)
+    (h1 : x * pb ≤ y * pa) (h2 : y * pc ≤ z * pb) : x * pc ≤ z * pa := by
+  have e1 : x * pb * pc ≤ y * pa * pc := Int.mul_le_mul_of_nonneg_right h1 (Int.le_of_lt hpc)
+  have e2 : y * pc * pa ≤ z * pb * pa := Int.mul_le_mul_of_nonneg_right h2 (Int.le_of_lt hpa)
+  have r1 : x * pc * pb = x * pb * pc := by rw [Int.mul_assoc, Int.mul_assoc, Int.mul_comm pc]
+  have r2 : y * pa * pc = y * pc * pa := by rw [Int.mul_assoc, Int.mul_assoc, Int.mul_comm pc]
+  have r3 : z * pb * pa = z * pa * pb := by rw [Int.mul_assoc, Int.mul_assoc, Int.mul_comm pb]
+  have e3 : x * pc * pb ≤ z * pa * pb := by rw [r1, ← r3]; rw [r2] at e1; exact Int.le_trans e1 e2
+  exact Int.le_of_mul_le_mul_right e3 hpb
+
+/-- Negative transitivity: if `a < c` then every `b` is above `a` or below `c`. -/
+theorem lt_cotrans (a b c : Dec) (h : Dec.lt a c = true) : Dec.lt a b = true ∨ Dec.lt b c = true := by
+  rw [lt_by_value] at h
+  rw [lt_by_value, lt_by_value]
+  apply Decidable.byContradiction
+  intro hn
+  have h1 : b.num * 10 ^ a.scale ≤ a.num * 10 ^ b.scale := by omega
+  have h2 : c.num * 10 ^ b.scale ≤ b.num * 10 ^ c.scale := by omega
+  have := cross_le c.num b.num a.num (10 ^ c.scale) (10 ^ b.scale) (10 ^ a.scale)
+    (pow10_pos _) (pow10_pos _) (pow10_pos _) h2 h1
+  omega
+
 /-! Witnesses (kernel-checked): the classic binary-float traps are exact. -/
 example : Dec.add ⟨false, 1, 1⟩ ⟨false, 2, 1⟩ = .ok ⟨false, 3, 1⟩ := by rfl
 example : Dec.beq ⟨false, 110, 2⟩ ⟨false, 11, 1⟩ = true := by decide
